@@ -18,7 +18,7 @@ MANIFEST = dict(
          "(C16's regenerated call-site table). Tie: differential correspondence on the FULL real stack (GeckoAsyncSpaMan + locator + spa + facade on the virtual loop, "
          "peer = the real simulator extended to apply writes / key presses and echo through its own report_changes): predicted emissions vs datagrams decoded by the real "
          "handlers; threaded twins on a stub spa. Search monitors: datagram count, pack type / versions / sequence range, state after echo, second command silent."
-         ' Since session 3: watercare_command_survives_polls (Model/WatercareRace.lean: one async_set_mode whose statement order is GENERATED, any number of facade polls, the protocol lock, any scheduler: once the command has returned spa and client both hold the requested mode) with the counterexample for the optimistic order; the real stack is exercised with a spa that holds its watercare answers, and with devices switched at the spa between facade commands. Session 4: a LONG session on one connection (140 pack commands, more than two cycles of the command sequence numbers): each still one well-formed in-range command, applied and read back. Session 4: a long session on the blocking client too (real GeckoSpa, real pump and switch classes, 150 commands decoded by the real SPACK decoder, stored and echoed). Also: a command issued while another exchange holds the connection for longer than a request timeout goes out exactly once.',
+         ' Since session 3: watercare_command_survives_polls (Model/WatercareRace.lean: one async_set_mode whose statement order is GENERATED, any number of facade polls, the protocol lock, any scheduler: once the command has returned spa and client both hold the requested mode) with the counterexample for the optimistic order; the real stack is exercised with a spa that holds its watercare answers, and with devices switched at the spa between facade commands. Session 4: a LONG session on one connection (140 pack commands, more than two cycles of the command sequence numbers): each still one well-formed in-range command, applied and read back. Session 4: a long session on the blocking client too (real GeckoSpa, real pump and switch classes, 150 commands decoded by the real SPACK decoder, stored and echoed). Also: a command issued while another exchange holds the connection for longer than a request timeout goes out exactly once. Session 5: every_plain_command_gets_its_task (AsyncTasks.add_task creates a task on every normal end, no test); two commands issued back to back through the facade\'s plain (non-awaitable) entry points are two command datagrams and both read back.',
     note="The spa's reaction (store + echo; key press toggles the device behind the key) is the assumption the property prescribes, implemented by the harness peer and as "
          "definitions in the model. Target temperature conversion is C14's. Trusted: Lean kernel, translator for the tables, the harness.",
     technique="Lean 4 proofs by composition of C02/C05/C16 theorems + induction over command sequences; differential correspondence on the full real stack",
@@ -394,6 +394,43 @@ def run_snapshot(ctx, snapshot, lines, impl_ans, rng, long_session=True):
                 else:
                     sim.hold_wc = False
                     ctx.hist("commands", "command-behind-slow-exchange:poll-not-seen")
+            # ---- two commands issued BACK TO BACK through the facade's plain (non-awaitable) entry points - an automation that
+            #      switches two devices in one go, a user tapping two tiles: each is one command, both are applied
+            plain = []
+            for d_ in switches:
+                plain.append((d_.key, (lambda dd=d_: (dd.turn_off if dd.is_on else dd.turn_on)()), (lambda dd=d_: dd.is_on), None))
+            for p_ in fac.pumps:
+                ms_ = [m_ for m_ in p_.modes if m_]
+                if len(ms_) >= 2:
+                    a_ = spa.accessors[p_._user_demand["demand"]]
+                    plain.append((p_.key, None, (lambda aa=a_: aa.value), (p_, ms_, a_)))
+            pairs_ = [(plain[i], plain[j]) for i in range(len(plain)) for j in range(len(plain)) if i != j][:6]
+            for one, two in pairs_:
+                n0 = len(sim.commands)
+                wants, errs = [], []
+                for key_, fn_, read_, pm_ in (one, two):
+                    try:
+                        if pm_ is not None:
+                            pp_, ms_, aa_ = pm_
+                            w_ = ms_[0] if aa_.value != ms_[0] else ms_[1]
+                            pp_.set_mode(w_)
+                        else:
+                            w_ = not read_()
+                            fn_()
+                        wants.append(w_)
+                    except Exception as e:  # noqa
+                        errs.append(f"{key_}: {type(e).__name__}: {e}")
+                        wants.append(None)
+                await settle(4.0)
+                ctx.count("evaluations")
+                ctx.hist("commands", "two-back-to-back")
+                sent = [c for c in sim.commands[n0:] if c.get("kind") in ("key", "set")]
+                got = [str(one[2]()), str(two[2]())]
+                if errs or len(sent) != 2 or got != [str(w) for w in wants]:
+                    ctx.violation("two-commands-back-to-back", {"snapshot": name, "devices": [one[0], two[0]]},
+                                  {"command_datagrams": 2, "read_back": [str(w) for w in wants]},
+                                  {"errors": errs, "command_datagrams": len(sent), "read_back": got})
+                    break
             # ---- a LONG session on the one connection: more than two whole cycles of the command sequence numbers (64 values),
             #      every command still one well-formed in-range SPACK that the spa applies and echoes
             packs = lambda: [c for c in sim.commands if c["kind"] in ("key", "set")]
